@@ -17,6 +17,7 @@ import (
 	"gmsverif/lib/eng"
 	. "gmsverif/lib/sqlast"
 	"gmsverif/lib/sqlgen"
+	"gmsverif/lib/typefix"
 	"gmsverif/lib/vio"
 )
 
@@ -62,6 +63,9 @@ func parseOnly(s string) onlySet {
 		if _, err := fmt.Sscan(p, &n); err == nil {
 			if n >= 10000 {
 				n = n / 10000 // an event id: its history is the unit of isolation
+			}
+			if n > 9999 {
+				n = 9999 // the read-only-query phase
 			}
 			o[n] = true
 		}
@@ -283,6 +287,42 @@ func runC11(w *vio.Writer, rep *vio.Report, seed int64, nh, steps, nq int, only 
 	}
 	rep.Extra["result_kinds"] = kinds
 	rep.Extra["result_changed_after_step"] = changed
+	if only == nil || only[9999] {
+		pureQueries(w, rep, seed)
+	}
+}
+
+// pureQueries: a read-only query changes nothing. Over a fixture with one column of every scalar
+// type, each catalogued select-list expression / aggregate is run as a query and the full table is
+// read before and after; the two snapshots form an `equiv` event (spec/Trace_Laws.tla).
+func pureQueries(w *vio.Writer, rep *vio.Report, seed int64) {
+	db := eng.New()
+	s := db.NewSession()
+	for _, f := range typefix.Fixture {
+		s.MustExec(f)
+	}
+	w.Write(dbEvent{Ev: "db", DB: map[string]any{}, Schema: []*sqlgen.TableDef{}, Step: "type fixture"})
+	snap := func() *eng.Result {
+		r := s.Exec("SELECT * FROM a ORDER BY k")
+		return &r
+	}
+	var qs []string
+	for _, e := range typefix.Exprs {
+		qs = append(qs, "SELECT "+e+" FROM a")
+		qs = append(qs, "SELECT k FROM a WHERE "+e+" IS NOT NULL ORDER BY "+e)
+	}
+	for _, a := range typefix.Aggs {
+		qs = append(qs, "SELECT "+a+" FROM a")
+	}
+	for i, q := range qs {
+		before := snap()
+		r := s.Exec(q)
+		after := snap()
+		w.Write(equivEvent{Ev: "equiv", ID: 99990000 + i, Kind: "read-only-query-changes-nothing", Ress: []*eng.Result{before, after},
+			SQLs: []string{"SELECT * FROM a ORDER BY k  -- before", q + "  -- then SELECT * again"}, Labels: []string{"before", "after"}, Tags: []string{"pure:" + r.Kind}})
+		rep.Cases++
+	}
+	rep.Extra["pure_queries"] = len(qs)
 }
 
 // execBound runs a statement through Engine.QueryWithBindings (the path of the binary protocol).
